@@ -335,6 +335,7 @@ fn raw<const N: usize>(ctx: &mut Ctx, features: u64, nops: usize, risky: bool) {
     hal::take_log();
     let neg = st.borrow().driver_features;
     ctx.tr.line(1600, &[features as u128, N as u128], &[neg as u128]);
+    ctx.tr.line(1658, &[features as u128, neg as u128], &[1]);
     let (rxq, txq) = qaddrs(&st, N);
     let ind = neg & F_IND != 0;
     NIC.with(|c| *c.borrow_mut() = Some(Nic::new(rxq, txq, N, neg & F_EVT != 0)));
@@ -563,6 +564,7 @@ fn vnet<const N: usize>(ctx: &mut Ctx, features: u64, buf_len: usize, nops: usiz
     let mut ins = vec![features as u128, N as u128, buf_len as u128]; ins.extend(env);
     let mut o = vec![neg as u128]; o.extend(unit_res(&r)); o.extend(enc_nev(&qevs, 0));
     ctx.tr.line(1620, &ins, &o);
+    ctx.tr.line(1658, &[features as u128, neg as u128], &[1]);
     let mut drv = match r { Ok(Ok(d)) => d, Ok(Err(_)) => { ctx.tr.note("vnet_new_refused"); virtio_drivers::verif::set_observer(None); ledger_line(ctx); return; }
                             Err(_) => { ctx.tr.note("vnet_new_panic"); virtio_drivers::verif::set_observer(None); return; } };
     ctx.tr.note("vnet_new_ok");
